@@ -289,7 +289,10 @@ def Sys.apply (s : Sys) (idx : Nat) (op : Op) (seen : Seen) (late : Option Seen)
       | .ok s' => pure s'
       | .error _ => attempt s.settle
   | _ =>
-    let s := s.settle
+   -- an operation at end `x` waits at most for the hidden reader of `x`; what the other end
+   -- has not yet noticed stays pending unless the observed result needs it.  A call that
+   -- was seen blocked for the whole deadline is judged on the fully settled state.
+   let body (s : Sys) : Except String Sys := do
     let e := s.getEnd x
     match op.kind with
     | .open | .dial | .listen =>
@@ -384,5 +387,10 @@ def Sys.apply (s : Sys) (idx : Nat) (op : Op) (seen : Seen) (late : Option Seen)
       | some e' => pure (s.setEnd x e'.wake)
       | none => throw "closeMux not enabled"
     | .cut | .write => throw "unreachable"
+   if seen == .blocked then body s.settle
+   else
+    match body (s.settleOne x) with
+    | .ok s' => pure s'
+    | .error _ => body s.settle
 
 end Nri.Mux
